@@ -71,6 +71,25 @@ func init() {
 		p := nasConvert.NewProtocolConfigurationOptions()
 		for _, x := range in["units"].([]interface{}) {
 			m := x.(map[string]interface{})
+			// "add": the unit is appended by the library's own helper for that kind of container (the contents are its argument)
+			if how := str(m, "add"); how != "" {
+				c := unhex(m, "contents")
+				switch how {
+				case "dns4":
+					p.AddDNSServerIPv4Address(net.IP(c))
+				case "dns6":
+					p.AddDNSServerIPv6Address(net.IP(c))
+				case "mtu":
+					p.AddIPv4LinkMTU(uint16(c[0])<<8 | uint16(c[1]))
+				case "dns4req":
+					p.AddDNSServerIPv4AddressRequest()
+				case "dns6req":
+					p.AddDNSServerIPv6AddressRequest()
+				case "ipalloc":
+					p.AddIPAddressAllocationViaNASSignallingUL()
+				}
+				continue
+			}
 			u := nasConvert.NewProtocolOrContainerUnit()
 			u.ProtocolOrContainerID = uint16(num(m, "id"))
 			u.LengthOfContents = uint8(num(m, "len"))
